@@ -187,6 +187,7 @@ class MultiTaskBCD(BaseSolver):
                             if max(self.verbose - 1, 0):
                                 print("Early exit")
                             break
+            p_obj = datafit.value(Y, W, XW) + penalty.value(W[:n_features])
             obj_out.append(p_obj)
             if _verif.ON:
                 _verif.emit("record", t=t, p_obj=p_obj, w=W, Xw=XW)
